@@ -1,4 +1,32 @@
 CLAIMS = {
+ "C01": {
+  "text": "Decides structural necessary conditions of election safety on every path of the program text: vote-handler post-conditions (success => persisted pair = (req.term, req.src); one vote per term) by path-sensitive ordering dataflow; a node becomes leader only in candidate.onVoteResult after decrementing votesNeeded (= quorum() = voters/2+1 of the latest configuration) once per success reply without error and without a higher term, down to zero; each election uses a fresh reply channel handed to the request goroutines by value; the self vote is persisted before any request; every site observing a higher term adopts it and steps down; a leader is accepted only at equal term. It does not decide that majorities intersect over message schedules, crashes and reconfiguration histories.",
+  "ref": "DESIGN.md §3 C01", "technique": "path-sensitive ordering dataflow on SSA + CFG gates + who-may-call/write",
+  "note": "Trusted: go/ssa + VTA call graph; test hooks do not mutate state; no overflow. History-level election safety is not claimed."},
+ "C02": {
+  "text": "Decides structural necessary conditions of commit stability: the up-to-date check holds on every vote-granting path; the leader commits only majorityMatchIndex() > commitIndex and >= startIndex (startIndex = lastLogIndex+1 before the no-op); the majority is the (i/2)-th largest match index over voters of the latest configuration (normal-form check of the index arithmetic), the single-voter shortcut is guarded; canCommit's true-summary implies ldrCommitIndex>=index, term==req.term, index>commitIndex and gates both follower commit sites; truncation only above the snapshot, inside the log, at a proven term conflict, by a follower; configuration changes are gated on a committed previous configuration and an own-term commit. The leader-completeness induction over histories is not decided.",
+  "ref": "DESIGN.md §3 C02", "technique": "ordering dataflow + guard summaries + CFG gates with stability + who-may-call",
+  "note": "Trusted: go/ssa + VTA; sort.Sort sorts. Only the listed clauses are claimed."},
+ "C04": {
+  "text": "Decides structural necessary conditions of log matching: every append, truncation, commit and success reply of the append handler is behind the prevLogIndex/prevLogTerm check (local term has exactly the two sound reaching definitions) or a snapshot-covered prevLogIndex; entries <= snapshot index are skipped, same-term entries kept; storage.appendEntry appends contiguously (assert proven) and lastLogIndex/lastLogTerm follow every log mutation; requests are built from the sender's own log view (prev coordinates, entries, nextIndex advance); stale-term requests have no effect; a leader never truncates. The inductive property over pairs of nodes is not decided.",
+  "ref": "DESIGN.md §3 C04", "technique": "CFG gates (fresh-value) + reaching definitions + ordering dataflow on loop-free helpers",
+  "note": "Trusted: go/ssa + VTA. Only the listed clauses are claimed."},
+ "C06": {
+  "text": "Decides structural necessary conditions of durable acknowledgement: leader flushes (commitLog(index), error => panic) before advancing its commit index to the same value; on every feasible path the follower registers the flushing defer before the first append (correlated-condition filter), marks every append, flushes lastLogIndex before advancing its commit index and returns success only after the defers ran; majority over voters with a fresh voter cache (leader.numVoters/node derive from the configuration being installed); matchIndex raised only by a success reply, to the last index of the acknowledged request. What msync guarantees and how many nodes hold an entry at run time are not decided.",
+  "ref": "DESIGN.md §3 C06", "technique": "dominance/must-pass with feasibility filter + cache-freshness def-use + who-may-write",
+  "note": "Trusted: go/ssa + VTA; msync makes data durable (model)."},
+ "C08": {
+  "text": "Decides structural necessary conditions of safe membership change: validation gates of onChangeConfig on every path (including loop invariants: nothing removed, voting right unchanged, new nodes non-voters, a voter without action remains); canChangeConfig's summary (committed and no transfer) gates every doChangeConfig; at most one mutation of a cloned configuration per entry; Voter:=true only on the promote action; adoption on append / revert on truncation; commitConfig tied to the commit index; sole writers of configs.Latest/Committed; voter cache freshness. That C01/C02 hold under reconfiguration histories and that a voter remains at run time are not decided.",
+  "ref": "DESIGN.md §3 C08", "technique": "CFG gates + loop-body invariants + ordering dataflow + who-may-call/write",
+  "note": "Trusted: go/ssa + VTA. Only the listed clauses are claimed."},
+ "C11": {
+  "text": "Decides structural necessary conditions of 'non-voters hold no authority': every setState(Candidate) site is voter-gated (canStartElection summary, timeout-now refusal before any effect, bootstrap self-voter check, startElection assertion; isVoter = exists && Voter); non-voters never enter the majority; promotion only with a finished round observed after the last begin(), fast enough or nothing new, under canChangeConfig; rounds finish only at their target; removal of a non-voter waits for matchIndex >= Latest.Index; a non-voting leader steps down after commitConfig; doClose(ErrNodeRemoved) only on the committed path when absent and enabled. Schedules of learning configurations vs timeouts are not decided.",
+  "ref": "DESIGN.md §3 C11", "technique": "ordering dataflow over checkConfigAction + guard summaries + CFG gates",
+  "note": "Trusted: go/ssa + VTA. Only the listed clauses are claimed."},
+ "C17": {
+  "text": "Only the leader-stability clause is claimed (availability/liveness is not applicable to static analysis): on every path of the vote handler with no transfer flag, a known leader and a requester other than that leader, the result is not success and the persisted (term, vote) pair is unchanged; replyRPC reports resetTimer for a vote request only when it was granted and stateLoop resets the follower timer only on that report; Raft.leader is written only by setLeader.",
+  "ref": "DESIGN.md §3 C17", "technique": "path-sensitive ordering dataflow on SSA",
+  "note": "Liveness clause not claimed. Trusted: go/ssa + VTA."},
  "C05": {
   "text": "Decides, for every path of the program text, the structural necessary conditions of C05: (1) vote handler post-conditions by a path-sensitive ordering dataflow over onVoteRequest and its deferred persist: a success reply implies the pair persisted is (req.term, req.src), persisted exactly once as the last effect; at every exit the pair is unchanged, or a higher term, or a first vote in the current term; (2) setTerm/setVotedFor publish in memory only after a successful termVal.set of the same values under a monotone guard; value.set is rename -> dir sync -> memory; (3) sole writers/callers; (4) replies are built only from onRequest's result and a panicking persist becomes unexpectedErr; (5) the candidate persists (term+1, self) before any request goroutine or self-reply. It does not decide what a crash does to files.",
   "ref": "DESIGN.md §3 C05", "technique": "path-sensitive ordering dataflow (trace partitioning) on SSA + who-may-write + dominance",
